@@ -733,6 +733,15 @@ class Tr:
         if not self.later_uses(name, rest):
             self.env[name] = "tainted"
             return self.block(rest, facts, ind)
+        if cond_else is None and (isinstance(value, (ast.Compare, ast.BoolOp)) or (isinstance(value, ast.UnaryOp) and isinstance(value.op, ast.Not))
+                                  or (isinstance(value, ast.Call) and isinstance(value.func, ast.Name) and value.func.id == "isinstance")) \
+                and self.is_shape(value, facts):
+            # a named sub-condition (`too_many_dims = input.ndim >= 3`): evaluated here (its definedness is tested here),
+            # used wherever the name is tested later
+            b, d = self.cond(value, facts)
+            d = simplify_def(d, facts)
+            self.env[name] = E("bool", b=b)
+            return self.def_guard(d, ind) + self.block(rest, facts, ind)
         try:
             e = self.expr(value, facts)
             if e.kind == "tuple" and cond_else is None:
